@@ -90,7 +90,14 @@ def run(repo, rep, tier):
         return m
 
     # ---- R3 ---------------------------------------------------------------
-    ec, ecn = meth(mp, 'EnumerateClasses'), meth(mp, 'EnumerateClassNames')
+    from ..inline import Flat
+    KEEP = ('_get_subclass_names', '_get_subclass_list_for_enums')
+
+    def fmeth(cls, n):
+        # judged with private helpers inlined (except the closure functions
+        # themselves, whose calls are what the rule looks for)
+        return Flat(meth(cls, n), keep=KEEP)
+    ec, ecn = fmeth(mp, 'EnumerateClasses'), fmeth(mp, 'EnumerateClassNames')
     ca, cb = _calls(ec, '_get_subclass_names'), \
         _calls(ecn, '_get_subclass_names')
     r3.sites += 2
@@ -113,7 +120,7 @@ def run(repo, rep, tier):
             rep.finding(r3, ec.qualname, norm(ca[0]), 'closure-args', MAIN,
                         ca[0].lineno, 'children/subtree are not selected by '
                         '(ClassName, class_store, DeepInheritance)')
-    encl = meth(mp, '_get_subclass_list_for_enums')
+    encl = fmeth(mp, '_get_subclass_list_for_enums')
     r3.functions.add(encl.fq)
     inner = _calls(encl, '_get_subclass_names')
     ok = len(inner) == 1 and len(inner[0].args) == 3 and \
@@ -134,7 +141,7 @@ def run(repo, rep, tier):
                     encl.node.lineno, 'the instance-enumeration closure is '
                     'not NocaseList(deep subclasses) + the class itself')
     for n in ('EnumerateInstances', 'EnumerateInstanceNames', 'DeleteClass'):
-        f = meth(mp, n)
+        f = fmeth(mp, n)
         r3.sites += 1
         r3.functions.add(f.fq)
         cs = _calls(f, '_get_subclass_list_for_enums')
@@ -158,7 +165,7 @@ def run(repo, rep, tier):
                         'closure-unused', MAIN, f.node.lineno,
                         '%s does not select instances by membership of '
                         'their class in the shared subtree closure' % n)
-    dc = meth(mp, 'DeleteClass')
+    dc = fmeth(mp, 'DeleteClass')
     cs = _calls(dc, '_get_subclass_names')
     ok = len(cs) == 1 and len(cs[0].args) == 3 and \
         norm(cs[0].args[0]) == 'ClassName' and norm(cs[0].args[2]) == 'True'
@@ -187,15 +194,20 @@ def run(repo, rep, tier):
         rep.finding(r3, dc.qualname, 'subtree deletion', 'delete-subtree',
                     MAIN, dc.node.lineno, 'DeleteClass does not delete '
                     'exactly the deep subclass closure plus the class itself')
-    gsn = meth(mp, '_get_subclass_names')
+    gsn = fmeth(mp, '_get_subclass_names')
     r3.functions.add(gsn.fq)
     rec = _calls(gsn, '_get_subclass_names')
     ok = len(rec) == 1 and len(rec[0].args) == 3 and \
         norm(rec[0].args[2]) == gsn.params[-1]
-    child = any(isinstance(c, ast.Compare) and
-                eqsrc(c, 'c.superclass.lower() == %s.lower()'
-                      % gsn.params[1])
-                for c in ast.walk(gsn.node))
+    def _child_test(c):
+        if not (isinstance(c, ast.Compare) and len(c.ops) == 1 and
+                isinstance(c.ops[0], ast.Eq)):
+            return False
+        sides = [norm(c.left), norm(c.comparators[0])]
+        want = gsn.params[1] + '.lower()'
+        return any(x.endswith('.superclass.lower()') for x in sides) and \
+            want in sides
+    child = any(_child_test(c) for c in ast.walk(gsn.node))
     r3.ob(ok and child, '_get_subclass_names:recursion',
           {'recursive_call': norm(rec[0]) if rec else None,
            'child_test': child})
@@ -288,8 +300,9 @@ def run(repo, rep, tier):
 def _has_fact(facts, text, pol):
     """a fact equivalent to `text` with polarity pol (accepts the negated
     spelling `not text` / `a not in b`)"""
+    import re as _re
     for t, p in facts:
-        s = norm(t)
+        s = _re.sub(r'\b\w+\$', '', norm(t))   # locals of inlined helpers
         if s == text and p == pol:
             return True
         if s == 'not ' + text and p == (not pol):
@@ -306,16 +319,26 @@ def _has_fact(facts, text, pol):
 def inheritance_marks(repo, rep, r6):
     """C12.R6 - propagated / class_origin / qualifier-flavor bookkeeping of
     the class resolver, decided on guard facts."""
+    import re as _re
     from ..cfg import stmt_facts
+    from ..inline import Flat
+    from ..paths import return_paths
     RES = 'pywbem_mock/_resolvermixin.py'
     rm = repo.cls(RES, 'ResolverMixin')
+    KEEP = ('_set_new_object', '_resolve_qualifiers', '_init_qualifier',
+            '_resolve_objects')
+    from ..model import norm as _norm
+
+    def norm(x, n=200):            # pylint: disable=redefined-outer-name
+        # names of inlined helpers' locals carry a `helper$` prefix
+        return _re.sub(r'\b\w+\$', '', _norm(x, n))
 
     def need(n):
         f = rm.methods.get(n)
         if f is None:
             raise AnalysisError('ResolverMixin.%s vanished' % n)
         r6.functions.add(f.fq)
-        return f
+        return Flat(f, keep=KEEP)
 
     def judge(ok, func, construct, fact, line, msg, case=None):
         r6.sites += 1
@@ -328,28 +351,48 @@ def inheritance_marks(repo, rep, r6):
     facts = stmt_facts(sno.node)
     pi = sno.params.index('propagated')
     ii = sno.params.index('inherited_obj')
-    prop_assign = [st for st in facts if isinstance(st, ast.Assign) and
-                   norm(st.targets[0]) == 'new_obj.propagated']
-    judge(len(prop_assign) == 1 and norm(prop_assign[0].value) ==
-          'propagated', sno, 'new_obj.propagated', 'propagated-flag',
+    spaths = return_paths(sno.orig, inline=False)
+    if spaths is None:
+        raise AnalysisError('_set_new_object: too many paths')
+    pparam = sno.params[pi]
+    bad_prop, bad_inh, bad_new, unguarded = [], [], [], []
+    n_inh = n_new = 0
+    for sp in spaths:
+        # the type parameter stays symbolic
+        sp.env = {k: v for k, v in sp.env.items() if k != pparam}
+        pa = [e for e in sp.effects if isinstance(e, ast.Assign) and
+              _norm(e.targets[0]) == 'new_obj.propagated']
+        if not pa or _norm(sp.resolve(pa[-1].value)) != pparam:
+            bad_prop.append(sp)
+        co_ = [e for e in sp.effects if isinstance(e, ast.Assign) and
+               _norm(e.targets[0]) == 'new_obj.class_origin']
+        isprop = _has_fact(sp.facts, pparam, True)
+        isnew = _has_fact(sp.facts, pparam, False)
+        val = _norm(sp.resolve(co_[-1].value)) if co_ else None
+        if isprop:
+            n_inh += 1
+            if val != 'inherited_obj.class_origin':
+                bad_inh.append(val)
+        elif isnew:
+            n_new += 1
+            if val != 'new_class.classname':
+                bad_new.append(val)
+        elif co_:
+            unguarded.append(val)
+    judge(not bad_prop, sno, 'new_obj.propagated', 'propagated-flag',
           sno.node.lineno, 'the element is not marked with the propagated '
-          'flag its caller determined',
-          {'assign': [norm(x) for x in prop_assign]})
-    co = [(st, facts[st][0]) for st in facts if isinstance(st, ast.Assign)
-          and norm(st.targets[0]) == 'new_obj.class_origin']
-    inh = [st for st, fs in co if _has_fact(fs, 'propagated', True)]
-    new = [st for st, fs in co if _has_fact(fs, 'propagated', False)]
-    judge(len(inh) == 1 and norm(inh[0].value) ==
-          'inherited_obj.class_origin', sno, 'class_origin (inherited)',
+          'flag its caller determined (on %d of %d paths)'
+          % (len(bad_prop), len(spaths)), {'paths': len(spaths)})
+    judge(n_inh >= 1 and not bad_inh, sno, 'class_origin (inherited)',
           'class-origin', sno.node.lineno,
           'an overriding element must keep the class_origin of the element '
           'it overrides (the ancestor that first introduced it)',
-          {'assign': [norm(x) for x in inh]})
-    judge(len(new) == 1 and norm(new[0].value) == 'new_class.classname',
-          sno, 'class_origin (new)', 'class-origin', sno.node.lineno,
+          {'values': bad_inh})
+    judge(n_new >= 1 and not bad_new, sno, 'class_origin (new)',
+          'class-origin', sno.node.lineno,
           'a newly introduced element must get the new class as '
-          'class_origin', {'assign': [norm(x) for x in new]})
-    judge(len(co) == len(inh) + len(new), sno, 'class_origin', 'unguarded',
+          'class_origin', {'values': bad_new})
+    judge(not unguarded, sno, 'class_origin', 'unguarded',
           sno.node.lineno, 'class_origin is assigned outside the '
           'propagated / not propagated cases')
 
